@@ -9,6 +9,8 @@
     (design rows n_train .. n_train + n_test, holdout form);
  R5 constant folding of Featurizer.__init__ / prepare_data with no features and no fixed effects: the design has the single
     column 'intercept' for fit and holdout;
+ R7 the settings container of the request (model_parameters, a mutable default) is not written to: the covariates of one request do not
+    reach the next (restated from C12.R4);
  R6 the solver call of fit_model, bound against the INSTALLED solver's signature: taus = the caller's tau, weights = the caller's
     weights, lambda_ / fit_intercept = the model's own settings, and the intercept is not regularised (a penalised intercept of an
     intercept-only design is not the weighted median once lambda_ > 0).
@@ -209,6 +211,15 @@ def check(ctx):
     okret = rt[0] == "sub" and rt[2] in (psum.attrs.get("complete_features"), ("attr", SELF, "complete_features"))
     ctx.ob("C05.R5.returns", f"{pd_.qualname}|prepare_data returns the complete feature columns", okret, pd_.where(),
            "prepare_data returns df[self.complete_features]" if okret else f"prepare_data returns {ir.show(rt, maxdepth=3)}")
+
+    # ---- R7 "no covariates" is a fact about THIS request ------------------------------------------------------------
+    # the closed form holds for a request without features / fixed effects; the covariate lists reach the model through the request's
+    # settings, and a container of settings that outlives the call (the mutable default of model_parameters, written to) hands the
+    # covariates of an earlier request to a later covariate-free one. Restated from C12.R4 (caller-owned arguments are not modified).
+    n7 = ctx.borrow("C12", "C12.R4.caller-arg", "C05.R7.request-private",
+                    "a covariate-free request would be fitted with the covariates an earlier request left in the shared settings",
+                    key=lambda k: k.endswith("|model_parameters"))
+    ctx.sites("C05.R7", n7, 1, "settings container of get_estimates, restated from C12.R4")
 
     # ---- R6 the fit itself reaches the solver as it was asked for --------------------------------------------------
     # fit_model hands (X, y, tau, weights, lambda, intercept flag) to the third-party solver. Bound against the installed signature, the
